@@ -50,6 +50,8 @@ ATTRS = ("name", "setting_kwds", "context_kwds", "min_rounds", "max_rounds", "ro
          "max_desired_rounds", "default_rounds", "vary_rounds", "min_salt_size", "max_salt_size", "default_salt_size",
          "default_ident", "truncate_size", "truncate_error", "default_variant", "version", "block_size", "parallelism",
          "default_algs", "default_marker")
+#: attributes of the prefix wrapper OBJECT that no option changes: every derived hasher, at any depth, keeps them
+WRAPPER_OWN = ("prefix", "orig_prefix", "django_name")
 FIELD_ATTR = {"mn_d": "min_desired_rounds", "mx_d": "max_desired_rounds", "dflt": "default_rounds", "vary": "vary_rounds",
               "ssize": "default_salt_size", "ident": "default_ident", "trunc": "truncate_error",
               "variant": "default_variant", "version": "version", "bsize": "block_size", "par": "parallelism",
@@ -219,6 +221,7 @@ def meta(name):
     M.root = {f: jval(getattr(T0, FIELD_ATTR[f])) for f in M.fields}
     M.root["pin"] = None
     M.outer_attrs = ("name",) + tuple(a for a in ATTRS if a in U.PrefixWrapper._proxy_attrs) if M.wrapper else ()
+    M.wrapper_own = {a: jval(getattr(G, a, MISSING)) for a in WRAPPER_OWN} if M.wrapper else {}
     M.accept = accepted_keys(M)
     M.cost = cost_params(M)
     M.classes = raw_holders(G)
@@ -1283,12 +1286,20 @@ class World:
         self.outcome = None
 
 
+def _safe_getattr(obj, a):
+    try:
+        return getattr(obj, a)
+    except AttributeError:
+        return MISSING
+
+
 def snapshot(W, nd):
     M, obj = nd.M, nd.obj
     s = {}
     inner = obj
     if M.wrapper:
         s["outer"] = {a: jval(getattr(obj, a, MISSING)) for a in M.outer_attrs}
+        s["own"] = {a: jval(_safe_getattr(obj, a)) for a in WRAPPER_OWN}
         inner = obj.wrapped
     s["attrs"] = {a: jval(getattr(inner, a, MISSING)) for a in ATTRS}
     s["lo"], _ = observe_made(M, obj, "lo", W.fa)
@@ -1383,6 +1394,10 @@ def compare(W, nd, s):
                 if inverted and ATTR_ASPECT.get(a) == "rounds":
                     continue
                 out.append(("wrapper", f"proxy_attr:{a}", f"wrapper attribute {a} is {got!r}, reference model says {want!r}"))
+        for a, want in M.wrapper_own.items():
+            got = s.get("own", {}).get(a)
+            if not same(want, got):
+                out.append(("wrapper", f"own_attr:{a}", f"wrapper attribute {a} is {got!r}, the hasher it was derived from has {want!r}"))
     if inverted:
         return out
     # ---- hashes made
